@@ -15,6 +15,7 @@ import Mfi.Lemmas.SkelL
 import Mfi.Props.C04
 import Mfi.Lemmas.ConstL
 import Mfi.Lemmas.WorldL
+import Mfi.Lemmas.WorldTxL
 
 namespace Mfi.Props.C05
 open Mfi Mfi.Fx Mfi.Risk Mfi.Gen Mfi.Props.C09 Mfi.Props.C04
@@ -408,6 +409,29 @@ end whole_instructions
 
 section whole_instructions
 open Mfi Mfi.World Mfi.Gen Mfi.Risk
+
+/-- **world_tx_every_liquidation_is_of_an_unhealthy_account**: every classic liquidation of a COMMITTED transaction of the world
+    machine — whatever else the transaction contains, the liquidator inside a flash loan or not — ran on a reached state on which
+    the liquidatee's maintenance health, with both banks accrued, was NEGATIVE beforehand, and left it strictly better and still
+    not positive; the liquidatee was neither in receivership nor inside a flash loan -/
+theorem world_tx_every_liquidation_is_of_an_unhealthy_account {w w' : WState} {tx : List TOp} (h : w.runTx tx = some w')
+    {i qi ei abi lbi signer : Nat} {amount : Int} (hi : tx[i]? = some (.ix (.liquidate qi ei abi lbi signer amount))) :
+    ∃ (c : LiqCtx) (o : LiqOutW),
+      (∃ (wi : WState) (lq le : AcctV) (ab lb : WBank), w.before tx i = some wi ∧ wi.accts[qi]? = some lq ∧ wi.accts[ei]? = some le ∧
+        wi.banks[abi]? = some ab ∧ wi.banks[lbi]? = some lb ∧ c = wi.liqCtx lq le ab lb signer) ∧
+      World.liquidate c amount = .ok o ∧ 0 < amount ∧
+      hasFlag c.le.flags ACCOUNT_IN_RECEIVERSHIP = false ∧ hasFlag c.le.flags ACCOUNT_IN_FLASHLOAN = false ∧
+      ∃ a l ps pre ps' lp' post,
+        Bank.accrueInterest c.ab.books c.ab.ir c.now = .ok a ∧ Bank.accrueInterest c.lb.books c.lb.ir c.now = .ok l ∧
+        portfolio2 c.risk (Account.sortBalances c.le.slots) c.ab.key a c.lb.key l = .ok ps ∧
+        preLiquidationFor ps (posOf ps (Account.sortBalances c.le.slots) c.lb.key) = .ok pre ∧
+        portfolio2 c.risk o.leSlots c.ab.key o.assetBooks c.lb.key o.liabBooks = .ok ps' ∧
+        postLiquidation ps' lp' pre = .ok post ∧
+        pre < 0 ∧ pre < post ∧ post ≤ 0 := by
+  obtain ⟨wi, lq, le, ab, lb, o, hbef, hq, he, hab, hlb, ho⟩ := tx_liquidate_ran h hi
+  obtain ⟨⟨_, _, _, _, _, _, _, hrecv, _, _⟩, hamt, _, _, _, hfl, a, l, ps, pre, ap, lp, ps', lp', post, ha, hl, hps, hpre, _, _, _, _, hps', hpost, h1, h2, h3, _⟩ :=
+    world_liquidate_spec ho
+  exact ⟨_, o, ⟨wi, lq, le, ab, lb, hbef, hq, he, hab, hlb, rfl⟩, ho, hamt, hrecv, hfl, a, l, ps, pre, ps', lp', post, ha, hl, hps, hpre, hps', hpost, h1, h2, h3⟩
 
 /-- the amounts the whole-instruction model computes (`World.liqAmountsLate`, the handler's own order: the insurance fee is
     converted to whole tokens only after the third balance move) are the amounts of `Risk.liquidationAmounts`, about which
